@@ -132,7 +132,7 @@ PROPS["C05"] = {
     "exhaustive": _MUL_A[:1] + [_MUL_A[1]],
     "drivers": [{"driver": "basemul", "trace": "Trace_Point"},
                 {"driver": "basemul", "trace": "Trace_Point", "tags": ("verif", "purego")}],        # both lookup configurations
-    "require_classes": {"quick": ["tbl_huge", "tbl_odd", "tbl_row", "bm_single_byte", "bm_zero_nibble", "bm_edge", "bm_priv"]},
+    "require_classes": {"quick": ["tbl_huge", "tbl_odd", "tbl_row", "bm_single_byte", "bm_zero_nibble", "bm_edge", "bm_priv", "bm_priv_after_derive"]},
     "assumptions": ["table entries are exhaustively checked (finite set); multiplications on multi-byte scalars are sampled"],
     "min_counts": {"tbl_huge": 8160, "tbl_odd": 480, "tbl_row": 32, "bm_single_byte": 16320},
 }
@@ -202,7 +202,7 @@ PROPS["C07"] = {
     "drivers": [{"driver": "verify", "trace": "Trace_Ecdsa"}],
     "require_classes": {"quick": ["r_zero", "s_zero", "high_s_rej", "high_s_acc", "x_ge_n", "R_inf", "e_zero", "digest_ge_n", "digest_short",
                                   "digest_long", "accept", "reject", "enc_asn1", "enc_compact", "enc_rec", "enc_bogus", "rec_wrong_v", "btc_accept",
-                                  "btc_badenv", "btc_high_s", "hash_mismatch", "parse_reject", "alt_path", "nil_opts", "after_scribble"]},
+                                  "btc_badenv", "btc_high_s", "hash_mismatch", "parse_reject", "alt_path", "nil_opts", "after_scribble", "near_miss_r"]},
     "assumptions": ["full-size inputs are constructed per corner class and decided by an exact oracle; all inputs are enumerated only on miniature curves"],
 }
 
@@ -220,14 +220,14 @@ PROPS["C08"] = {
     "drivers": [{"driver": "sign", "trace": "Trace_Ecdsa"}],
     "require_classes": {"quick": ["d_one", "d_nm1", "pub_yodd", "pub_yeven", "digest_zero", "digest_ones", "digest_ge_n", "v0", "v1",
                                   "sv_same", "inadmissible_len", "inadmissible_enc", "rfc6979", "hedged", "sign_len_long", "enc_asn1", "enc_compact",
-                                  "enc_rec", "nil_opts", "build_der", "build_short", "build_compact", "after_derive", "accept"]},
+                                  "enc_rec", "nil_opts", "build_der", "build_short", "build_compact", "after_derive", "accept", "sig_stable"]},
     "assumptions": ["x(R) >= n, r = 0 and s = 0 cannot be reached through signing at full size (2^-128); those branches are covered on the miniature model "
                     "and, for ids 2/3, by C11's direct recovery events"],
 }
 
 PROPS["C09"] = {
     "title": "signing nonces are never reused, biased or RNG-trusting; RFC 6979 mode is exact",
-    "technique": 'TLA+ state machine of one Sign call (Nonce.tla): TLC exhaustive + Apalache inductive invariant; RFC 6979 DRBG state machine; stateful TLC trace validation of scripted entropy readers (determinism / uniqueness maps)',
+    "technique": 'TLA+ state machine of one Sign call (Nonce.tla): TLC exhaustive + Apalache inductive invariant + TLAPS proof for all parameter values; RFC 6979 DRBG state machine; stateful TLC trace validation of scripted entropy readers (determinism / uniqueness maps)',
     "level": "model_checking",
     "level_text": "Nonce.tla is the state machine of one Sign call (io.ReadFull over an arbitrary reader script, the per-signature DRBG, the bounded rejection "
                   "sampler, the sign/retry loop); TLC enumerates all reader scripts x candidate-class sequences and checks 'signed => exactly W bytes of entropy, "
@@ -240,7 +240,8 @@ PROPS["C09"] = {
                   "first RFC candidate.",
     "level_note": "trusted: TLC, BigInt/EcMul/SHA-256 overrides (self-tested), harness logging; TupleHash is uninterpreted (the property does not pin it)",
     "exhaustive": [{"spec": "MC_Nonce", "params": "mini43"},
-                   {"spec": "NonceInd", "engine": "apalache", "files": ["Nonce.tla", "NonceInd.tla"]}],
+                   {"spec": "NonceInd", "engine": "apalache", "files": ["Nonce.tla", "NonceInd.tla"]},
+                   {"spec": "NonceProof", "engine": "tlaps", "files": ["Nonce.tla", "NonceProof.tla"]}],
     "drivers": [{"driver": "nonce", "trace": "Trace_Ecdsa", "shards": 16}],
     "require_classes": {"quick": ["reader_short_reads", "reader_fail_0", "reader_fail_mid", "reader_fail_31", "reader_err_with_last", "reader_ok",
                                   "same_triple", "entropy_one_byte_diff", "constant_entropy_diff_msg", "nil_rand", "wiped_import", "sample_first", "sample_after_zero",
@@ -262,7 +263,7 @@ PROPS["C10"] = {
     "exhaustive": _ECDSA_A[:1] + [{"spec": "MC_Sec1", "params": "mini211", "env": {"VERIF_MCFULL": "1"}}],
     "drivers": [{"driver": "keys", "trace": "Trace_Ecdsa"}],
     "require_classes": {"quick": ["priv_ok", "priv_zero", "priv_ge_n", "priv_badlen", "pub_ok_unc", "pub_ok_cmp", "pub_identity", "pub_invalid",
-                                  "pub_twist", "ecdh_ok", "ecdh_edge", "ecdh_repeat", "key_immutable"]},
+                                  "pub_twist", "ecdh_ok", "ecdh_edge", "ecdh_repeat", "key_immutable", "rec_q_inf"]},
     "assumptions": ["full-size keys are sampled per class with an exact oracle"],
 }
 
@@ -282,7 +283,7 @@ PROPS["C11"] = {
 
 PROPS["C12"] = {
     "title": "signature and key wire formats are strict, canonical, and parsed without panics",
-    "technique": 'wire formats as TLA+ grammars (DER, BIP-66 from the BIP text, SPKI) model-checked over all short byte strings + TLC trace validation of structural deviations and random bytes through every parser',
+    "technique": 'wire formats as TLA+ grammars (DER, BIP-66 from the BIP text, SPKI) model-checked over all short byte strings + TLC-enumerated deviation shapes (Shape_Wire.tla: every single and pair of structural deviations) instantiated at full size + TLC trace validation of every parser verdict',
     "level": "model_checking",
     "level_text": "Wire.tla states the accepted languages as grammars over byte sequences (strict-DER SEQUENCE{INTEGER,INTEGER}, compact forms, BIP-66 written "
                   "from the BIP text, SubjectPublicKeyInfo with exact OIDs and a BIT STRING without unused bits). TLC checks on a one-byte scalar width that for "
@@ -299,13 +300,15 @@ PROPS["C12"] = {
         {"spec": "MC_Wire", "params": "mini211", "env": {"VERIF_MCFULL": "0"}, "tiers": ("quick",)},
         {"spec": "MC_Wire", "params": "mini211", "env": {"VERIF_MCFULL": "1"}, "tiers": ("thorough",), "timeout": 7200},
     ],
-    "drivers": [{"driver": "wire", "trace": "Trace_Wire"}],
+    "drivers": [{"driver": "wire", "trace": "Trace_Wire",
+                 "shape": {"spec": "Shape_Wire", "cfg": "Shape_Wire.cfg", "mode": "bfs", "params": "mini211",
+                           "what": "skeleton files (base + every single + every pair of structural deviations; NoSecondEncoding checked at miniature width)"}}],
     "require_classes": {"quick": ["der_ok", "der_bad", "der_len_long_form", "der_indefinite", "der_leading_zero", "der_negative", "der_trailing",
                                   "der_wrong_tag", "der_empty_int", "der_33_byte", "der_value_zero", "der_value_ge_n", "der_short_input",
                                   "build_roundtrip", "build_high_bit", "build_short", "cmp_ok", "cmp_bad_len", "cmp_zero", "cmp_ge_n", "cmpv_ok",
                                   "bip_ok", "bip_len_edge", "bip_bad", "bip_but_not_der", "bip_neg", "bip_padding",
                                   "spki_ok_unc", "spki_ok_cmp", "spki_unused_bits", "spki_unused_bits_zero_pad", "spki_bad_oid", "spki_trailing",
-                                  "spki_bad_point", "spki_identity", "spki_params", "spki_bad", "random_bytes"]},
+                                  "spki_bad_point", "spki_identity", "spki_params", "spki_bad", "random_bytes", "model_sig_shape", "model_spki_shape"]},
     "assumptions": ["full-size byte strings are enumerated per structural class and sampled at random; all strings are enumerated only at miniature width"],
 }
 
@@ -356,7 +359,7 @@ PROPS["C14"] = {
 
 PROPS["C15"] = {
     "title": "hash-to-curve equals RFC 9380 (secp256k1 XMD:SHA-256 SSWU RO/NU) on every input",
-    "technique": 'TLA+ transcription of RFC 9380 (XMD, hash_to_field, SWU 6.6.2 and F.2, isogeny) with F.2 = 6.6.2 model-checked for all u on a miniature field + TLC recomputing the whole pipeline for every logged call',
+    "technique": 'TLA+ transcription of RFC 9380 (XMD, hash_to_field, SWU 6.6.2 and F.2, isogeny) with F.2 = 6.6.2 and the whole map (SWU + a genuine 3-isogeny, Velu-derived) model-checked for all u on miniature fields + TLC recomputing the whole pipeline for every logged call',
     "level": "model_checking",
     "level_text": "H2C.tla transcribes RFC 9380: expand_message_xmd (incl. DSTs over 255 bytes), hash_to_field with L = 48, the simplified SWU map in its "
                   "declarative form (6.6.2: inv0, is_square, sqrt, sgn0), the 3-isogeny with the RFC's constants, and the straight-line form F.2 with "
@@ -385,7 +388,7 @@ PROPS["C15"] = {
 
 PROPS["C18"] = {
     "title": "no invalid objects via the API; aliasing and caller mutation are harmless",
-    "technique": 'TLA+ state machine of the public API (Api.tla): exhaustive TLC exploration on a miniature curve, TLC-generated call schedules (exhaustive single calls + simulated histories) replayed on real objects, whole-pool trace validation',
+    "technique": 'TLA+ state machine of the public API (Api.tla): points, scalars, buffers, ECDSA / BIP-340 key objects and signatures as pool objects; exhaustive TLC exploration on a miniature curve, TLC-generated call schedules (one per call x alias pattern x byte class x context, each followed by the caller scribbling over its buffers; plus simulated histories) replayed on real objects, whole-pool trace validation',
     "level": "model_checking",
     "level_text": "Api.tla is the state machine of the public API over a pool of Point slots (possibly zero-value), Scalar slots, byte buffers shared with the "
                   "library and a private/public key object: Step(st, call) gives the outcome kind (ok / err / panic) and successor state of every call, with slot "
@@ -395,21 +398,30 @@ PROPS["C18"] = {
                   "the identity) and StepOK (failure => nothing changed; only key constructors change key objects). (C) The same next-state relation, in simulation "
                   "mode, emits schedules that the Go replayer executes on real objects; (B) the full-size trace, carrying the projection of the WHOLE pool after every "
                   "call, is validated by Trace_Api with the same Step from the specification's own state: wrong outcome kind (a zero-value operand that did not "
-                  "panic), any object changed by a failed/panicking call, alias-unsafe results, or a key object that moved after caller mutation are rejected steps.",
+                  "panic), any object changed by a failed/panicking call, alias-unsafe results, or a key object that moved after caller mutation are rejected steps. "
+                  "Signatures are pool objects as well: key.Sign / key.Verify / key.Recover / skey.Sign / spub.Verify read digests and signatures from the caller's "
+                  "buffers and write signatures into them, exactly (RFC 6979 candidate loop, BIP-340 with fixed entropy), so a later signing call that disturbs an "
+                  "earlier signature, a verdict that ignores caller mutation, or a recovery that yields an invalid key object is a rejected step too; SignOK "
+                  "(sign => verifies in every encoding and recovers to the held key) is an invariant of the miniature model.",
     "level_note": "trusted: TLC, BigInt/EcMul overrides (self-tested), the replayer's projection (library encoders, cross-checked by C03/C06) and recover() wrappers",
     "exhaustive": [
-        {"spec": "MC_Api", "params": "mini211", "cfg": "MC_Api.cfg"},
+        {"spec": "MC_Api", "params": "mini211", "cfg": "MC_Api.cfg", "big": True},
+        {"spec": "MC_Api", "params": "mini211", "cfg": "MC_Api_deep.cfg", "big": True, "tiers": ("thorough",), "timeout": 7200},
     ],
     "drivers": [{"driver": "api", "trace": "Trace_Api",
-                 "shape": [{"spec": "MC_Api", "cfg": "Sys_Api.cfg", "params": "mini211", "mode": "bfs"},
-                           {"spec": "MC_Api", "cfg": "Shape_Api.cfg", "params": "mini211", "num": (4, 60), "depth": 60, "procs": 16}]}],
+                 "shape": [{"spec": "MC_Api", "cfg": "Sys_Api.cfg", "params": "mini211", "mode": "bfs", "big": True},
+                           {"spec": "MC_Api", "cfg": "Shape_Api.cfg", "params": "mini211", "num": (4, 60), "depth": 60, "procs": 16, "big": True}]}],
     "require_classes": {"quick": ["alias_recv", "alias_args", "alias_all", "kind_panic", "kind_err", "kind_ok", "uninit_operand", "decode_fail_valid_recv",
                                   "decode_fail_uninit_recv", "decode_ok", "key_ctor_ok", "key_ctor_err", "mutate_with_key", "mutate_buf_with_key",
                                   "mutate_scalar_with_key", "mutate_point_with_key", "msm", "msm_mismatch", "scalar_decode_err", "reply", "reset",
-                                  "schnorr_ctor_ok", "schnorr_ctor_err", "mutate_with_schnorr_key", "recover_call", "coords_call", "fresh_ctor"]},
+                                  "schnorr_ctor_ok", "schnorr_ctor_err", "mutate_with_schnorr_key", "recover_call", "coords_call", "fresh_ctor",
+                                  "sign_ok", "sign_err", "verify_true", "verify_false", "sig_recover_ok", "sig_recover_err", "sig_kept_across_sign",
+                                  "schnorr_sign", "schnorr_verify_true", "schnorr_verify_false", "ctrl_not_bool",
+                                  "uniform_ok", "uniform_uninit_recv", "uniform_exceptional", "uniform_panic",
+                                  "btc_true", "btc_false", "spki_build", "spki_parse_ok", "spki_parse_err", "append_byte"]},
     "assumptions": ["histories are sampled by TLC's simulator from the exhaustive call set (all alias patterns are enumerated; sequences are random); the depth-bounded "
                     "exhaustive exploration is on the miniature curve",
-                    "Schnorr key objects, signing and hash-to-curve are not part of the pool model (covered functionally by C13-C15)"],
+                    "hash-to-curve and hedged (entropy-consuming) signing are not pool operations (covered functionally by C09, C15); pool signing uses the RFC 6979 selector and fixed BIP-340 entropy so that every reply is a function of the pool"],
 }
 
 
@@ -472,6 +484,7 @@ PROPS["C19"] = {
         {"driver": "h2c", "post": _same_traces, "pair_key": "h2c"},
     ],
     "require_classes": {"quick": ["proj_idx0", "proj_idx", "aff_idx0", "aff_idx", "pat_random", "pat_limb_ones", "pat_limb_bit", "pat_ones", "pat_zeros",
+                                  "pat_align0", "pat_align8",
                                   "touch_ct", "touch_all_readable", "touch_vartime_differs", "layout", "build_asm", "build_purego",
                                   "tbl_huge", "bm_single_byte", "mul_alias", "msm_alias", "add_p_negp"]},
     "assumptions": ["indices >= 16 are outside the lookups' contract (callers pass a 4-bit window); they are not asserted",
